@@ -28,7 +28,10 @@ TRUSTED = ["min_cost_flow.hpp is modelled twice: at algorithm level (successive 
            "the Python Bellman-Ford that proposes the dual point (alpha, beta, gamma) is untrusted: the extracted, proved "
            "checker emd_cert_ok verifies it",
            "NumPy int32 conversion of the arguments in the wrapper (np.ascontiguousarray)"]
-ASSUMPTIONS = ["no int32 overflow: sum(P)*max(C) + |sum P - sum Q|*penalty < 2^31 (generator bound, stated)",
+ASSUMPTIONS = ["max(C) <= 2^31 - 2: with max(C) == INT_MAX the artificial-arc cost maxC + 1 wraps and the real solver never returns "
+               "(candidate finding C10-cand-2, findings/C10.json); such matrices are not generated (guard counted as "
+               "'excluded:max(C) == INT_MAX')",
+               "no int32 overflow: sum(P)*max(C) + |sum P - sum Q|*penalty < 2^31 (generator bound, stated)",
                "histograms are non-empty (len 0 makes the wrapper read vf[0] of an empty vector: outside the property's domain)",
                "explicit penalties are >= 0 (the value -1 is the C++ sentinel for 'default')",
                "gd_metric=True is only claimed for ground distances that are restrictions of a metric with zero diagonal"]
@@ -338,6 +341,13 @@ def generate(ctx):
             _encode(rng, c)
     cases.extend(one)
     cases.extend(iso)
+    keep = []
+    for c in cases:
+        if max([0] + [int(x) for r in c["c"] for x in r]) >= 2 ** 31 - 1:
+            ctx.count("excluded:max(C) == INT_MAX (candidate finding C10-cand-2)")
+            continue
+        keep.append(c)
+    cases = keep
     for c in cases:
         ctx.count("kind:" + c.get("kind", "?"))
         ctx.count("shape:%s" % ("equal" if len(c["p"]) == len(c["q"]) else "unequal"))
@@ -700,7 +710,7 @@ def shrink_candidates(case):
 
 MANIFEST = {
     "level_text": (
-        "Machine-checked proofs (Coq 8.16, 45 theorems, all closed under the global context). (a) The extracted certificate "
+        "Machine-checked proofs (Coq 8.16, 47 theorems, all closed under the global context). (a) The extracted certificate "
         "checker emd_cert_ok is sound for all sizes and inputs: acceptance of (P, Q, C, penalty, d, F, alpha, beta, gamma) "
         "implies that d is exactly the transportation optimum plus penalty*|sum P - sum Q| of the property text (also against "
         "fractional flows) and that F is a feasible integral flow whose cost reproduces d; the value is unique; zero padding "
@@ -717,19 +727,19 @@ MANIFEST = {
         "arcs, ghost node potentials (forward/backward entries of an arc carry opposite reduced costs) along the whole run, and "
         "- under a run-time flag that the model records and the correspondence evaluates for every case (never set) - that all "
         "residual arcs keep reduced cost >= 0 through every iteration, so that the final capacities satisfy complementary "
-        "slackness, and that the capacity flow is conserved (at the end all excesses are zero and outflow - inflow = supply at "
-        "every node); fuel sufficiency; the book-keeping of transform_flow_to_regular. The pair addressing of augment is proved "
+        "slackness, that the capacity flow is conserved, and hence (generic min-cost-flow certificate instantiated with the "
+        "ghost potentials) that at the end the capacity flow, indexed by arcs, is a MINIMUM-COST flow of the reduced graph; "
+        "fuel sufficiency; the book-keeping of transform_flow_to_regular. The pair addressing of augment is proved "
         "wrong on graphs with anti-parallel arcs (kernel-evaluated non-terminating witness) and such graphs are proved "
         "unreachable through emd_hat_impl's construction except at the artificial node."),
     "level_note": (
         "Trusted: Coq kernel + vm_compute; extraction (ExtrOcamlBasic only) and the S-expression driver; the Python harness. "
-        "NOT proved (named in Props/C10.v): the re-indexing of the capacity flow by arcs and its equality with the returned x "
-        "lists (caps_flow_indexing, x_caps_consistent), hence the instantiation of the min-cost certificate on the line-level "
-        "flow; that the run never fails; the read_back / my_dist book-keeping through the node "
+        "NOT proved (named in Props/C10.v): that the returned x lists carry the capacity flow (x_caps_consistent); that the run never fails; the read_back / my_dist book-keeping through the node "
         "renaming; that the artificial node is never used (the flag is never set: checked per case, 0 of ~150 000 runs). The "
         "end-to-end statement therefore still rests on the certificate computed inside the algorithm-level model and on the "
         "per-case certificate check of the implementation's output. int is modelled by Z; int32 overflow is excluded by "
-        "generator bounds."),
+        "generator bounds, including max(C) <= 2^31-2: with max(C) = INT_MAX the artificial-arc cost wraps and the real solver "
+        "never returns (candidate finding C10-cand-2, found by a targeted refutation attempt)."),
     "technique": "Coq proof of a certificate checker run on the implementation's output + two executable models (certifying, and line-level with exact flow correspondence) + run-time-checked hypothesis flag",
     "design_ref": "DESIGN.md section 7, C10",
 }
